@@ -599,7 +599,7 @@ class World:
             if kind.split('[', 1)[0] in ('dict', 'enumdict'):
                 return V.is_DictV(v)
             if kind == 'callable':
-                return V.is_ObjV(v)
+                return z3.And(V.is_ObjV(v), self.uf('callable!', [IntS, BoolS])(V.oid(v)))
         if fty in self.classes:
             return z3.And(V.is_ObjV(v), self.cids.sub(CLSOF(V.oid(v)), fty))
         raise Unsupported(f'unknown field type {fty}')
@@ -1070,7 +1070,7 @@ MODULE_FUNCS = {'os.path.dirname': 'contract:os.path.dirname', 'os.scandir': 'co
                 'time.time': 'time_time', 'time.sleep': 'time_sleep', 'json.dumps': 'json_dumps',
                 'json.loads': 'json_loads'}
 MODULE_CLASSES = {}
-SINGLETONS = {'Done': -101, 'UNSET': -102}
+SINGLETONS = {'Done': -101, 'UNSET': -102, 'Retry': -103, 'Finish': -104}
 SPECIAL_GLOBALS = {('frappy/lib/__init__.py', 'generalConfig'): 'frappy.lib.generalConfig'}
 
 
